@@ -445,3 +445,49 @@ impl ModelCtx {
         }
     }
 }
+
+/// JSON text for a value in which every byte string and map key is a string literal carrying its bytes raw (only `"`,
+/// `\` and control bytes escaped), so the text is not UTF-8 when the bytes are not. What a reader makes of it is for
+/// the reader under comparison to say; the harness never predicts it.
+pub fn raw_json(v: &MValue, out: &mut Vec<u8>) {
+    fn raw_str(b: &[u8], out: &mut Vec<u8>) {
+        out.push(b'"');
+        for &c in b {
+            match c {
+                b'"' => out.extend_from_slice(b"\\\""),
+                b'\\' => out.extend_from_slice(b"\\\\"),
+                0..=0x1f => out.extend_from_slice(format!("\\u{:04x}", c).as_bytes()),
+                _ => out.push(c),
+            }
+        }
+        out.push(b'"');
+    }
+    match v {
+        MValue::Bool(b) => out.extend_from_slice(if *b { b"true" } else { b"false" }),
+        MValue::Int(i) => out.extend_from_slice(i.to_string().as_bytes()),
+        MValue::Ip(a) => raw_str(a.to_string().as_bytes(), out),
+        MValue::Bytes(b) => raw_str(b, out),
+        MValue::Array(_, es) => {
+            out.push(b'[');
+            for (i, e) in es.iter().enumerate() {
+                if i > 0 {
+                    out.push(b',');
+                }
+                raw_json(e, out);
+            }
+            out.push(b']');
+        }
+        MValue::Map(_, es) => {
+            out.push(b'{');
+            for (i, (k, e)) in es.iter().enumerate() {
+                if i > 0 {
+                    out.push(b',');
+                }
+                raw_str(k, out);
+                out.push(b':');
+                raw_json(e, out);
+            }
+            out.push(b'}');
+        }
+    }
+}
